@@ -90,7 +90,7 @@ func ZZ_C03_R4_FailedInitialisationRestores() {
 	configuration.CurrentConfig.MaxRpmDiffForSettledFan = 1000000
 	configuration.CurrentConfig.FanResponseDelay = 0
 	e := zzNewFan(zzKindHwmon, false, true, true, true, origPwm, orig, 1300)
-	e.hw.Config.PwmMap = &map[int]int{0: 0, 128: 128, 255: 255} // no sweep: the measurement loop runs over three values
+	e.hw.Config.PwmMap = &map[int]int{0: 0, 128: 128, 200: 200} // no sweep: the measurement loop runs over three values and ends at PWM 200, not at full speed
 	mem := &zzMemPersistence{rpm: map[string]map[int]float64{}, pwmMaps: map[string]map[int]int{}, failRpmSave: true}
 	c := &DefaultFanController{persistence: mem, fan: e.fan, curve: &zzCurve{id: "zzcurve", v: 100}, updateRate: time.Millisecond,
 		pwmValuesWithDistinctTarget: []int{}, controlLoop: zzLoop(0)}
